@@ -55,11 +55,30 @@ def is_wpend(t):
     return isinstance(t, tuple) and len(t) == 2 and t[0] == 'wpend'
 
 
+def includes_done(coll):
+    """does the collection term include (all of) a `done` half of a wait?"""
+    for c in T.union_items(coll):
+        if is_wdone(c):
+            return True
+        if c[0] == 'binop' and c[1] in ('BitOr', 'Add') and (includes_done(c[2]) or includes_done(c[3])):
+            return True
+        if c[0] == 'call' and c[1] in ('list', 'set', 'tuple') and len(c[2]) == 1 and includes_done(c[2][0]):
+            return True
+        if c[0] == 'comp' and any(is_wdone(g[1]) for g in c[3]) and c[2][0] == 'elem':
+            return True
+        if c[0] == 'mcall' and c[2] == 'union' and (includes_done(c[1]) or any(includes_done(a) for a in c[3])):
+            return True
+    return False
+
+
 def covers(coll, item):
     """does collection term `coll` contain (all the tasks denoted by) `item`?"""
     if coll == item:
         return True
     for c in T.union_items(coll):
+        if c[0] == 'when':
+            # added under a path condition: the task it holds was created on that same path
+            c = c[3]
         if c == item:
             return True
         if c[0] == 'single' and c[1] == item:
@@ -133,6 +152,14 @@ class RunModel(Analysis):
             d = fterm[2]
         if d in TASK_MAKERS and args:
             return [self.spawn(ip, node, args[0], st, fr)]
+        ra = self.roles.reverse_attr
+        if fterm[0] == 'attr' and fterm[2] in ('add', 'update') and T.is_attr(fterm[1], ra) and args:
+            self.ev(ip, 'LINK', node, st, fr, obj=fterm[1][1], val=args[0], how=fterm[2],
+                    conds=tuple(sorted(((k, v) for k, v in st.facts.items()
+                                        if any(c.elem is not None and T.contains(k, c.elem)
+                                               for c in ip.loopctx)
+                                        and not (v and any(k == c.iter for c in ip.loopctx))), key=repr)))
+            return [(st.set(linked=True), T.NONE)]
         if fterm[0] == 'class' and fterm[1] == self.roles.window_cls.name:
             self.ev(ip, 'NEWWIN', node, st, fr, in_loop=bool(ip.loopctx), depth=fr.depth)
         if fterm[0] == 'attr' and fterm[2] == 'cancel' and not args:
@@ -180,7 +207,9 @@ class RunModel(Analysis):
         task = T.mk(('task', kind, job if job is not None else ('unk', 'job')))
         phase = st.a('phase', 'NoTasks')
         self.ev(ip, 'SPAWN', node, st, fr, tkind=kind, job=job, window=window, task=task, phase=phase,
-                coro=arg)
+                coro=arg, nwait=st.a('nwait', 0), susp=st.a('susp', False), tf=st.a('tf'), cf=st.a('cf_flag'),
+                built=st.a('built', False), reg_reset=st.a('reg_reset', False),
+                ibase=next((c.base for c in reversed(ip.loopctx) if c.kind == 'for' and c.base is not None), None))
         if kind in ('run', 'bare'):
             live = st.a('live', frozenset()) | frozenset([task])
             st = st.set(live=live, phase='Live' if phase in ('NoTasks', 'Live') else phase,
@@ -229,6 +258,8 @@ class RunModel(Analysis):
         return c[k]
 
     def on_iter(self, ip, ctx, st, fr):
+        if ctx.kind == 'for' and not ip.in_summary:
+            ctx.base = frozenset(st.facts.keys())
         if ctx.kind != 'for' or not self._cancel_loop(ctx):
             return st
         k = ctx.key
@@ -274,7 +305,9 @@ class RunModel(Analysis):
         if t[0] == 'mcall' and t[2] in ('put', 'get') and self._is_queue(t[1]):
             kind = 'ACQ' if t[2] == 'put' else 'REL'
             out = []
-            if self.gen_cancel:
+            # T4: get() on a queue that holds this activation's own item does not suspend
+            nonblocking = kind == 'REL' and st.a('slot', 'Free') == 'Held'
+            if self.gen_cancel and not nonblocking:
                 out.append((st.note(ip.where(node, fr), "CancelledError delivered at queue.%s" % t[2]),
                             None, ('Cancelled',)))
             st2 = self.slot(ip, node, kind, t[1], st, fr, awaited=True)
@@ -332,8 +365,15 @@ class RunModel(Analysis):
                 uncovered=tuple(uncovered), phase=st.a('phase', 'NoTasks'))
         wd, wp = T.mk(('wdone', site)), T.mk(('wpend', site))
         y = st.forget(lambda s: s == wd or s == wp or T.is_attr(s) or s[0] == 'mcall')
-        y = y.set(live=frozenset([wp]), susp=False, nwait=min(2, st.a('nwait', 0) + 1),
-                  cancelled=frozenset(), cur_wait=site, incs=0)
+        c = st.a('cause') or self.cause_of(st)
+        if c is not None and c[0] in ('expired', 'critical', 'success'):
+            # a FIRST_COMPLETED wait reached after the run decided to leave its loop:
+            # not the main wait; the decision (cause) stays
+            self.ev(ip, 'LATEWAIT', node, st, fr, arg=arg, cause=c)
+            y = y.set(live=frozenset([wp]), cause=c, susp=True)
+        else:
+            y = y.set(live=frozenset([wp]), susp=False, nwait=min(2, st.a('nwait', 0) + 1),
+                      cancelled=frozenset(), cur_wait=site, incs=0, count_ok=None, cause=None)
         y = y.note(ip.where(node, fr), "asyncio.wait(FIRST_COMPLETED) returns (done, pending)")
         out = []
         if self.gen_cancel:
@@ -341,6 +381,28 @@ class RunModel(Analysis):
                         None, ('Cancelled',)))
         out.append((y, T.mk(('tuple', (wd, wp))), None))
         return out
+
+    def cause_of(self, st):
+        """why is this path leaving the main loop? read off the path facts"""
+        site = st.a('cur_wait')
+        if site is None:
+            return None
+        wd = T.mk(('wdone', site))
+        if st.facts.get(wd) is False:
+            return ('expired', None)
+        for k, v in st.facts.items():
+            if v and k[0] == 'exists' and k[1] == wd:
+                return ('critical', k)
+        if st.a('count_ok') is not None:
+            return ('success', st.a('count_ok'))
+        return ('unknown', None)
+
+    def with_cause(self, st):
+        if st.a('cause') is None and st.a('cur_wait') is not None:
+            c = self.cause_of(st)
+            if c is not None:
+                return st.set(cause=c)
+        return st
 
     def finished_only(self, x):
         """a collection derived from the `done` half of a wait only"""
@@ -375,6 +437,7 @@ class RunModel(Analysis):
         if cancelled and not bounded:
             # TIDY(x)
             if covers_live:
+                y = self.with_cause(y) if st.a('cause') is not None else y.set(cause=self.cause_of(st))
                 y = y.set(live=frozenset(), phase='Tidied' if phase == 'Live' else phase)
                 y = y.note(ip.where(node, fr), "tidy: all live job tasks cancelled and awaited")
                 self.ev(ip, 'TIDY', node, st, fr, coll=x, what='jobs', phase=phase)
@@ -401,6 +464,8 @@ class RunModel(Analysis):
             out.append((st.note(ip.where(node, fr), "CancelledError delivered during the shutdown broadcast"),
                         None, ('Cancelled',)))
         y = st.forget(lambda s: T.is_attr(s) or s[0] == 'mcall')
+        if st.a('cause') is None:
+            y = y.set(cause=self.cause_of(st))
         y = y.set(phase='Shut' if phase == 'Tidied' else phase, susp=True, shut_done=True)
         y = y.note(ip.where(node, fr), "shutdown broadcast awaited")
         out.append((y, T.mk(('shutresult',)), None))
@@ -410,6 +475,11 @@ class RunModel(Analysis):
     def on_branch(self, ip, node, term, val, st, fr):
         while term[:2] == ('unop', 'not'):
             term, val = term[2], not val
+        if term[0] == 'cmp' and term[1] in ('==', '>=', '<=', '!=', '<', '>') and fr.depth == 0 \
+                and (term[2][0] == 'acc' or term[3][0] == 'acc'):
+            self.ev(ip, 'COUNTCMP', node, st, fr, term=term, val=val)
+            if val:
+                st = st.set(count_ok=term)
         if not val:
             live = st.a('live', frozenset())
             if term in live:
@@ -422,17 +492,38 @@ class RunModel(Analysis):
                 st = st.set(shut_live=sl - frozenset([term]))
         return st
 
+    def on_suspend(self, ip, node, term, st, fr):
+        return st.set(susp=True)
+
     def keep_fact(self, ip, func, term):
-        return term[0] in ('wdone', 'wpend', 'adone', 'apend')
+        if term[0] in ('wdone', 'wpend', 'adone', 'apend'):
+            return True
+        d = self.roles.deadline_attr
+        return d is not None and T.mentions(term, lambda s: T.is_attr(s, d))
 
     # --------------------------------------------------------------- stores
     def on_store_attr(self, ip, node, obj, attr, val, st, fr, aug=None):
         wn = self.roles.window_cls.name
         if T.mentions(val, lambda s: len(s) == 4 and s[0] == 'new' and s[1] == wn):
             self.ev(ip, 'STOREWIN', node, st, fr, obj=obj, attr=attr)
-        if attr in self.roles.data_attrs:
+        r = self.roles
+        if attr in r.data_attrs:
             self.ev(ip, 'STORE', node, st, fr, obj=obj, attr=attr, val=val, aug=aug,
-                    phase=st.a('phase', 'NoTasks'), slot=st.a('slot', 'Free'))
+                    phase=st.a('phase', 'NoTasks'), slot=st.a('slot', 'Free'), nwait=st.a('nwait', 0),
+                    nstart=st.a('nstart', 0), depth=fr.depth)
+        upd = {}
+        if obj == T.SELF and attr == r.timeout_flag:
+            upd['tf'] = 'unset' if val == T.FALSE else 'set'
+        if obj == T.SELF and attr == r.critical_flag:
+            upd['cf_flag'] = 'unset' if val == T.FALSE else 'set'
+        if attr == r.reverse_attr:
+            upd['built'] = True
+        if attr == r.registry_attr and val == T.NONE:
+            upd['reg_reset'] = True
+        if upd:
+            from .flow import store_invalidates
+            st2 = st.forget(store_invalidates(obj, attr))
+            return st2.set(**upd)
         return None
 
     def on_store_name(self, ip, node, name, val, st, fr):
@@ -442,7 +533,10 @@ class RunModel(Analysis):
         return None
 
     def on_return(self, ip, node, val, st, fr):
-        self.ev(ip, 'RET', node, st, fr, val=val, phase=st.a('phase', 'NoTasks'),
+        if st.a('cause') is None:
+            st = st.set(cause=self.cause_of(st))
+        self.ev(ip, 'RET', node, st, fr, val=val, phase=st.a('phase', 'NoTasks'), cause=st.a('cause'),
+                tf=st.a('tf'), cf=st.a('cf_flag'),
                 live=st.a('live', frozenset()), shut_live=st.a('shut_live', frozenset()),
                 slot=st.a('slot', 'Free'))
         return st
